@@ -166,8 +166,11 @@ def set_sampler(rnd, mod, spec, depth):
         s.start_pos = rnd.choice([0, 3, u32(rnd)])
         mod.samples[i] = s
     empty_vol = rnd.random() < 0.15          # an empty volume envelope next to customised other envelopes (edge case)
+    stock_vol = not empty_vol and rnd.random() < 0.3     # the volume envelope left exactly as constructed, the others customised
     for k, e in enumerate([mod.volume_envelope, mod.panning_envelope, mod.pitch_envelope] + list(mod.effect_control_envelopes)):
-        if rnd.random() < 0.6 or empty_vol:
+        if k == 0 and stock_vol:
+            continue
+        if rnd.random() < 0.6 or empty_vol or stock_vol:
             lo, hi = e.range
             n = rnd.choice([0, 1, 2, 4, 12, 13, rnd.randrange(1, 40)])
             if empty_vol:
